@@ -9,6 +9,10 @@ CLAIMS = {
    design='§6 C12', technique='Lean 4 proof over source-translated definitions + differential correspondence',
    note='trusted: Lean kernel; translator tools/rs2lean/accessors.py (its output is also run differentially against the real accessors); spec/rfc_fields.json; slice accessors (payload, options) are hand-modelled under C04/C14'),
 }
+CLAIMS['C13'] = dict(
+   text='Proof (Lean 4): the checksum code (hand model of checksum.rs, u32 accumulator with checked additions, while-loop finalisation by well-founded recursion) equals the RFC 1071 one\'s-complement checksum over pseudo-header ++ data with the field cleared, for every data string up to 65535 octets, every ignore index (incl. the odd-tail case) and every address pair; no accumulator overflow in that range; the datagram with the checksum inserted verifies (sums to 0xFFFF). Correspondence: all six entry points on every length 0..1024 x 4 patterns x 16 address pairs, model vs implementation, plus an independent RFC 1071 receiver as oracle. The empty-input deviation (returns 0, RFC gives 0xFFFF) is a recorded known finding F13.',
+   design='§6 C13', technique='Lean 4 proof (refinement of a hand model to an RFC 1071 spec) + differential correspondence',
+   note='trusted: Lean kernel; hand model validated only by the correspondence run; Spec/Rfc1071.lean; the Paris checksum swap on the wire is decided under C11')
 REASONS = {}
 def main():
     props = [json.loads(l) for l in open(os.path.join(V, 'properties.jsonl'))]
